@@ -35,7 +35,7 @@ def generator_problems(op, name):
         G = dense_of(op).reshape(N, N)
         scale = max(1e-300, float(np.max(np.abs(G))))
         cs = float(np.max(np.abs(G.sum(axis=0))))
-        if cs > 1e-9 * scale:
+        if cs > 1e-11 * scale:
             out.append(('%s:colsum' % name, 'largest column sum %.3e (scale %.3e)' % (cs, scale)))
         off = G - np.diag(np.diag(G))
         if float(np.min(off.real)) < -1e-9 * scale or float(np.max(np.abs(G.imag))) > 1e-9 * scale:
@@ -163,11 +163,13 @@ def replay(case):
                         [np.dtype(dt).name for dt, _ in mix],))]
             return []
         if m == 'co_generator':
-            return generator_problems(mdl.co_oxidation(cfg['order'], 10.0 ** cfg['kexp'], cyclic=cfg['cyclic']), 'co')
+            return slim_history(lambda: mdl.co_oxidation(cfg['order'], 10.0 ** cfg['kexp'], cyclic=cfg['cyclic']), 'co') or \
+                generator_problems(mdl.co_oxidation(cfg['order'], 10.0 ** cfg['kexp'], cyclic=cfg['cyclic']), 'co')
         if m == 'cascade':
             return generator_problems(mdl.signaling_cascade(cfg['d']), 'cascade')
         if m == 'toll':
-            return generator_problems(mdl.toll_station(cfg['lanes'], cfg['cars']), 'toll')
+            return slim_history(lambda: mdl.toll_station(cfg['lanes'], cfg['cars']), 'toll') or \
+                generator_problems(mdl.toll_station(cfg['lanes'], cfg['cars']), 'toll')
         if m == 'twostep':
             k = cfg['k']
             return generator_problems(mdl.two_step_destruction(float(k[0]), float(k[1]), float(k[2]), cfg['m']), 'twostep')
@@ -180,6 +182,39 @@ def replay(case):
     except Exception as e:
         return [('%s:exception:%s' % (m, type(e).__name__), '%s raised %r for %r' % (m, e, cfg))]
     raise KeyError(m)
+
+
+class _Captured(Exception):
+    pass
+
+
+def slim_history(build, name):
+    """The chemical / queueing models are assembled by scikit_tt.slim.  History check: the reaction lists the model hands
+    to the assembler are captured (without running it), the assembler is called directly with these lists and a coarse
+    threshold (as a user exploring low-rank approximations would), and only then is the model built: it must still be a
+    generator (no state of the assembler may leak into later calls)."""
+    import scikit_tt.slim as slim
+    from unittest import mock
+    captured = []
+
+    def stub(fname):
+        def f(*a, **k):
+            captured.append((fname, a, dict(k)))
+            raise _Captured()
+        return mock.patch.object(slim, fname, side_effect=f)
+    try:
+        with stub('slim_mme'), stub('slim_mme_hom'):
+            build()
+    except _Captured:
+        pass
+    except Exception:
+        return []
+    for fname, a, k in captured[:1]:
+        try:
+            getattr(slim, fname)(*a, **dict(k, threshold=0.3))
+        except Exception:
+            pass
+    return [(sig.replace(':', ':after-coarse-slim-call:', 1), msg) for sig, msg in generator_problems(build(), name)]
 
 
 def contract_with(t, vecs):
